@@ -378,7 +378,7 @@ def gen_ebadf(rng, sid):
 
 def scenarios(ctx):
     rng = ctx.rng
-    n = 150 if ctx.tier == "quick" else 1500
+    n = 90 if ctx.tier == "quick" else 1200
     out = [gen_ebadf(rng, 100000 + k) for k in range(6)]
     for i in range(n):
         r = i % 10
@@ -500,7 +500,9 @@ def judge(s, ev, base):
                      (tag, [(h["done"], h["size"], h["err"]) for h in hs], len(ns)))
         if final["err"] == ECANCELED and close_seq > final["seq"]:
             fail("canceled_after_close", "%s reports ECANCELED although the channel was not closed" % tag)
-        if final["err"] != ECANCELED and o["length"] > 0:     # zero-length operations never reach the stream (io.c:1063)
+        # operations that never reach the stream's list are not ordered with it: zero length (io.c:1063), rejected at
+        # creation/enqueue because of close/stop (ECANCELED) or of a descriptor error recorded earlier (no system call)
+        if final["err"] != ECANCELED and o["length"] > 0 and (ns or final["err"] == 0):
             done_order.append((o["write"], i, final["seq"]))
         if not o["write"]:
             if moved > o["length"]:
@@ -699,7 +701,7 @@ def correspond(ctx):
                 dist["canceled_ops"] += 1
         for clause, txt in judge(s, ev, base):
             fails.append({"key": "%s:%s" % (clause, s.kind), "what": "scenario %d (%s): %s" % (s.sid, s.kind, txt),
-                          "clause": clause, "script": s.lines, "sid": s.sid})
+                          "clause": clause, "script": s.lines, "sid": s.sid, "meta": scn_meta(s)})
         for i, o in s.ops.items():
             dist["operations"] += 1
             dist["writes" if o["write"] else "reads"] += 1
@@ -744,6 +746,26 @@ def correspond(ctx):
             "notes": ["%d operations could not be reproduced by the model" % nbad] if nbad else []}
 
 
+def scn_meta(s):
+    return {"sid": s.sid, "pages": s.pages, "kind": s.kind, "rbase": s.rbase, "ops": list(s.ops.values()),
+            "order": [list(x) for x in s.order], "lines": s.lines}
+
+
+def scn_from_meta(m):
+    s = Scn(m["sid"], m["pages"])
+    s.lines = m["lines"]
+    s.kind = m["kind"]
+    s.rbase = m["rbase"]
+    s.ops = {}
+    for o in m["ops"]:
+        o = dict(o)
+        o["setters"] = [tuple(x) for x in o["setters"]]
+        o["interval"] = tuple(o["interval"])
+        s.ops[o["id"]] = o
+    s.order = [tuple(x) for x in m["order"]]
+    return s
+
+
 def replay(ctx, obj):
     exe, msg = build()
     if exe is None:
@@ -752,19 +774,27 @@ def replay(ctx, obj):
     patfile, base = pattern_file()
     bad = 0
     for f in obj.get("failures", []):
-        lines = f.get("script")
-        if not lines:
+        m = f.get("meta")
+        if not m:
             print("no script recorded:", f.get("what"))
             continue
-        print("replaying scenario %s (%s)" % (f.get("sid"), f.get("what")))
-        r = common.run([exe, patfile], input="\n".join(lines) + "\n", timeout=120)
-        out = [l for l in r.stdout.split("\n") if l and not l.startswith("K") and not l.startswith("S ")]
-        for l in out[:60]:
-            print("   " + l)
-        print("  (the script is timing dependent: the same clause may need several runs; `./check C14` reruns the whole "
-              "seeded set)")
-        if not (out and out[-1].startswith("Z ok")):
-            bad += 1
+        s = scn_from_meta(m)
+        print("replaying scenario %s: recorded failure: %s" % (f.get("sid"), f.get("what")))
+        hit = False
+        for attempt in range(5):      # the interleaving of the peer and the library is timing dependent
+            res, _ = run_harness(exe, patfile, [s], timeout=120)
+            ev = parse(res.get(s.sid, []))
+            out = judge(s, ev, base)
+            if out:
+                for clause, txt in out[:5]:
+                    print("  FAIL [%s] %s" % (clause, txt))
+                for l in res.get(s.sid, [])[:40]:
+                    print("     " + l)
+                hit = True
+                bad += 1
+                break
+        if not hit:
+            print("  (did not fail in 5 runs of this script; `./check C14` reruns the whole seeded set)")
     for b in obj.get("broken", []):
         print("no longer checks:", b)
     return 1
